@@ -18,77 +18,173 @@ type shEntry struct {
 	dl   int64
 	prog []hx.T
 	via  int64
+	tag  int64 // the request's tag (issue order)
+	sent bool  // it reached the peer (not an unserialisable one)
+}
+
+// one incarnation of the requesting actor: its own table, allocator and timer flag
+type shInc struct {
+	pend  map[int64]shEntry
+	next  int64
+	armed bool
 }
 
 type shadow struct {
-	pend  map[int64]shEntry
-	done  []int64 // ids completed so far
-	next  int64
-	clock int64
-	armed bool
-	via   int64
+	*shInc          // the live incarnation
+	old    []*shInc // the replaced ones: their tables are still scanned by their own timers
+	done   []int64  // ids completed so far (live or replaced incarnations)
+	clock  int64
+	via    int64
+	ntags  int64 // tags handed out so far (requests with a callback, in issue order)
+	// what the peer holds: request id and incarnation of every tagged request it received, and the
+	// last one received under each id
+	sentId  map[int64]int64
+	sentInc map[int64]int
+	latest  map[int64]int64
 }
 
-func newShadow() *shadow { return &shadow{pend: map[int64]shEntry{}, clock: clock0} }
+func newInc() *shInc { return &shInc{pend: map[int64]shEntry{}} }
 
-func (s *shadow) exec(a hx.T) {
+func newShadow() *shadow {
+	return &shadow{shInc: newInc(), clock: clock0, sentId: map[int64]int64{}, sentInc: map[int64]int{}, latest: map[int64]int64{}}
+}
+
+func (s *shadow) incIndex(in *shInc) int {
+	for i, o := range s.old {
+		if o == in {
+			return i
+		}
+	}
+	return len(s.old)
+}
+
+// hijack: would a response under request id `id`, the peer answering the request tagged `ghost`
+// (or, ghost < 0, the last one it received under that id), complete a request of the live
+// incarnation although the peer answers one of a replaced incarnation?  That is finding F24.
+func (s *shadow) hijack(id, ghost int64) bool {
+	e, ok := s.pend[id]
+	if !ok {
+		return false
+	}
+	t, have := ghost, false
+	if rid, ok := s.sentId[ghost]; ok && ghost >= 0 && rid == id {
+		have = true
+	} else if lt, ok := s.latest[id]; ok {
+		t, have = lt, true
+	}
+	return have && t != e.tag && s.sentInc[t] < len(s.old)
+}
+
+// user actions run on the incarnation whose code issues them (a callback acts on the
+// incarnation that issued its request)
+func (s *shadow) exec(in *shInc, a hx.T) {
 	switch a.Name {
 	case "AReq", "AUnser":
-		if s.next >= maxReqID {
-			s.next = 0
+		if in.next >= maxReqID {
+			in.next = 0
 		}
-		s.next++
-		s.pend[s.next] = shEntry{s.clock + timeout, hx.Terms(a.Args[0]), s.via}
-		s.armed = true
+		in.next++
+		in.pend[in.next] = shEntry{s.clock + timeout, hx.Terms(a.Args[0]), s.via, s.ntags, a.Name == "AReq"}
+		if a.Name == "AReq" {
+			s.sentId[s.ntags], s.sentInc[s.ntags], s.latest[in.next] = in.next, s.incIndex(in), s.ntags
+		}
+		s.ntags++
+		in.armed = true
 	case "ANoRoute":
+		s.ntags++
 		for _, x := range hx.Terms(a.Args[0]) {
-			s.exec(x)
+			s.exec(in, x)
 		}
 	}
 }
 
-func (s *shadow) fire(id int64) {
-	e, ok := s.pend[id]
+func (s *shadow) fire(in *shInc, id int64) {
+	e, ok := in.pend[id]
 	if !ok {
 		return
 	}
 	for _, x := range e.prog {
-		s.exec(x)
+		s.exec(in, x)
 	}
-	delete(s.pend, id)
+	delete(in.pend, id)
 	s.done = append(s.done, id)
 }
 
+func (s *shadow) all() []*shInc { return append(append([]*shInc{}, s.old...), s.shInc) }
+
 func (s *shadow) tick() {
-	if !s.armed {
-		return
-	}
-	if len(s.pend) == 0 {
-		s.armed = false
-		return
-	}
-	for _, id := range s.ids() {
-		if s.pend[id].dl < s.clock {
-			s.fire(id)
+	for _, in := range s.all() {
+		if !in.armed {
+			continue
+		}
+		if len(in.pend) == 0 {
+			in.armed = false
+			continue
+		}
+		for _, id := range idsOf(in) {
+			if in.pend[id].dl < s.clock {
+				s.fire(in, id)
+			}
 		}
 	}
 }
 
-func (s *shadow) ids() []int64 {
-	ids := make([]int64, 0, len(s.pend))
-	for id := range s.pend {
+func idsOf(in *shInc) []int64 {
+	ids := make([]int64, 0, len(in.pend))
+	for id := range in.pend {
 		ids = append(ids, id)
 	}
 	sort.Slice(ids, func(i, j int) bool { return ids[i] < ids[j] })
 	return ids
 }
 
+// ids pending in the live incarnation
+func (s *shadow) ids() []int64 { return idsOf(s.shInc) }
+
+// ids pending in replaced incarnations (a response carrying one goes to the live incarnation)
+func (s *shadow) oldIds() []int64 {
+	var ids []int64
+	for _, in := range s.old {
+		ids = append(ids, idsOf(in)...)
+	}
+	return ids
+}
+
+// a request pending in a replaced incarnation: its id and, if the peer has it, its tag
+func (s *shadow) pickOld(r *rand.Rand) (id, ghost int64) {
+	type cand struct{ id, ghost int64 }
+	var cs []cand
+	for _, in := range s.old {
+		for _, i := range idsOf(in) {
+			g := int64(-1)
+			if e := in.pend[i]; e.sent {
+				g = e.tag
+			}
+			cs = append(cs, cand{i, g})
+		}
+	}
+	c := hx.Pick(r, cs)
+	return c.id, c.ghost
+}
+
+func (s *shadow) deadlines() []int64 {
+	var ds []int64
+	for _, in := range s.all() {
+		for _, id := range idsOf(in) {
+			ds = append(ds, in.pend[id].dl)
+		}
+	}
+	return ds
+}
+
+func (s *shadow) total() int { return len(s.deadlines()) }
+
 func (s *shadow) apply(o hx.T) {
 	switch o.Name {
 	case "Do":
-		s.exec(o.Term(0))
+		s.exec(s.shInc, o.Term(0))
 	case "Resp":
-		s.fire(o.Int(0))
+		s.fire(s.shInc, o.Int(0))
 	case "Tick":
 		s.tick()
 	case "TickReal":
@@ -99,7 +195,7 @@ func (s *shadow) apply(o hx.T) {
 			s.clock += o.Int(0)
 		}
 	case "SetNext":
-		if v := o.Int(0); v >= 0 && v <= maxReqID && len(s.pend) == 0 {
+		if v := o.Int(0); v >= 0 && v <= maxReqID && s.total() == 0 {
 			s.next = v
 		}
 	case "Via":
@@ -107,6 +203,9 @@ func (s *shadow) apply(o hx.T) {
 		if v := o.Int(0); v >= 0 && v <= 5 {
 			s.via = v
 		}
+	case "Crash":
+		s.old = append(s.old, s.shInc)
+		s.shInc = newInc()
 	}
 }
 
@@ -118,7 +217,8 @@ func list(xs ...hx.T) []any {
 	return r
 }
 
-func tick() hx.T { return hx.C("Tick", []any{}) }
+func tick() hx.T  { return hx.C("Tick", []any{}) }
+func crash() hx.T { return hx.T{Name: "Crash"} }
 
 func genProg(r *rand.Rand, depth int, tags map[string]bool) []any {
 	if depth == 0 || r.Intn(100) < 60 {
@@ -158,6 +258,12 @@ const (
 	maxI32 = int64(2147483647)
 	minI32 = int64(-2147483648)
 )
+
+// Resp id (K ghost answer): ghost = tag of the request the peer is asked to answer (-1: whichever
+// request it holds under that id, if any)
+func respOp(id, ghost int64, answer any) hx.T {
+	return hx.C("Resp", id, hx.C("K", ghost, answer))
+}
 
 func ans(code, info int64, m any) hx.T { return hx.C("KAns", code, info, m) }
 func hello(i, s int64) hx.T            { return hx.C("MHello", i, s) }
@@ -290,7 +396,21 @@ func gen(r *rand.Rand, maxLen int) ([]hx.T, []string) {
 	tags := map[string]bool{}
 	sh := newShadow()
 	var ops []hx.T
-	push := func(o hx.T) { ops = append(ops, o); sh.apply(o) }
+	skipped := 0
+	push := func(o hx.T) {
+		if o.Name == "Resp" && sh.hijack(o.Int(0), o.Term(1).Int(0)) {
+			// finding F24 (the monitor fails on it, by design): keep such histories few and
+			// short - the corpus has the minimal one
+			if len(ops) > 10 || r.Intn(4) > 0 {
+				if skipped++; skipped < 50 {
+					return
+				}
+			}
+			tags["restart-id-reuse"] = true
+		}
+		ops = append(ops, o)
+		sh.apply(o)
+	}
 	if r.Intn(4) == 0 {
 		tags["wrap"] = true
 		push(hx.C("SetNext", maxReqID-int64(r.Intn(4))))
@@ -306,6 +426,8 @@ func gen(r *rand.Rand, maxLen int) ([]hx.T, []string) {
 	}
 	n := 1 + r.Intn(maxLen)
 	many := r.Intn(5) == 0
+	restarty := r.Intn(3) == 0 // a third of the histories restart the requester more eagerly
+	crashes := 0
 	for len(ops) < n {
 		p := r.Intn(100)
 		if many && len(ops) < n/2 {
@@ -320,12 +442,16 @@ func gen(r *rand.Rand, maxLen int) ([]hx.T, []string) {
 				continue
 			}
 			id := hx.Pick(r, ids)
+			ghost := int64(-1)
+			if e := sh.pend[id]; e.sent && r.Intn(10) < 6 {
+				ghost = e.tag // name the request the peer answers
+			}
 			if sh.pend[id].via == 2 && r.Intn(3) > 0 {
 				// let the peer's dispatcher answer "no method" itself
 				tags["dispatch-no-method"] = true
-				push(hx.C("Resp", id, noMethod))
+				push(respOp(id, ghost, noMethod))
 			} else {
-				push(hx.C("Resp", id, genKind(r, tags)))
+				push(respOp(id, ghost, genKind(r, tags)))
 			}
 		case p < 60: // duplicate / late: an id already completed
 			if len(sh.done) == 0 {
@@ -341,7 +467,7 @@ func gen(r *rand.Rand, maxLen int) ([]hx.T, []string) {
 			if _, again := sh.pend[id]; again {
 				continue
 			}
-			push(hx.C("Resp", id, genKind(r, tags)))
+			push(respOp(id, -1, genKind(r, tags)))
 		case p < 64: // unknown id
 			id := int64(r.Intn(40))
 			if r.Intn(3) == 0 {
@@ -351,13 +477,13 @@ func gen(r *rand.Rand, maxLen int) ([]hx.T, []string) {
 				continue
 			}
 			tags["unknown"] = true
-			push(hx.C("Resp", id, genKind(r, tags)))
+			push(respOp(id, -1, genKind(r, tags)))
 		case p < 76:
 			dt := int64(r.Intn(2000))
-			ids := sh.ids()
-			if len(ids) > 0 && r.Intn(2) == 0 {
-				// land exactly on, one before or one after some deadline
-				d := sh.pend[hx.Pick(r, ids)].dl - sh.clock + int64(r.Intn(3)) - 1
+			dls := sh.deadlines()
+			if len(dls) > 0 && r.Intn(2) == 0 {
+				// land exactly on, one before or one after some deadline (of any incarnation)
+				d := hx.Pick(r, dls) - sh.clock + int64(r.Intn(3)) - 1
 				if d >= 0 {
 					dt = d
 					tags["boundary"] = true
@@ -367,7 +493,7 @@ func gen(r *rand.Rand, maxLen int) ([]hx.T, []string) {
 				dt = timeout + 1 + int64(r.Intn(5))
 			}
 			push(hx.C("Advance", dt))
-		case p < 94:
+		case p < 88:
 			before := len(sh.done)
 			push(tick())
 			if len(sh.done) > before {
@@ -376,6 +502,28 @@ func gen(r *rand.Rand, maxLen int) ([]hx.T, []string) {
 			if len(sh.done) > before+1 {
 				tags["multi-timeout"] = true
 			}
+		case p < 93 && crashes < 3 && (restarty || r.Intn(4) == 0):
+			// a handler of the requesting service panics: restart with whatever is outstanding
+			crashes++
+			tags["restart"] = true
+			if sh.total() > 0 {
+				tags["restart-outstanding"] = true
+			}
+			push(hx.T{Name: "Crash"})
+		case p < 95 && len(sh.oldIds()) > 0:
+			// the peer answers a request of a replaced incarnation: the live one processes it
+			id, ghost := sh.pickOld(r)
+			if _, both := sh.pend[id]; both {
+				// ... and has a request of its own under that id: answering the OLD request is
+				// finding F24 (see push); else the peer answers the one it received last
+				if r.Intn(2) == 0 {
+					ghost = -1
+				}
+				tags["restart-same-id"] = true
+			} else {
+				tags["resp-after-restart"] = true
+			}
+			push(respOp(id, ghost, genKind(r, tags)))
 		case p < 96:
 			tags["resp-notify"] = true
 			push(hx.T{Name: "RespNotify"})
@@ -392,7 +540,7 @@ func gen(r *rand.Rand, maxLen int) ([]hx.T, []string) {
 	if r.Intn(10) < 6 {
 		// complete the history: a scan after every deadline, until nothing is left
 		tags["complete"] = true
-		for i := 0; i < 4 && (len(sh.pend) > 0 || i == 0); i++ {
+		for i := 0; i < 4 && (sh.total() > 0 || i == 0); i++ {
 			push(hx.C("Advance", timeout+1))
 			push(tick())
 		}
@@ -410,7 +558,7 @@ func boundaryCases() [][]hx.T {
 	reqRe := hx.C("Do", hx.C("AReq", list(hx.C("AReq", []any{}), hx.T{Name: "ANotify"})))
 	unser := hx.C("Do", hx.C("AUnser", []any{}))
 	adv := func(d int64) hx.T { return hx.C("Advance", d) }
-	ok := func(id int64) hx.T { return hx.C("Resp", id, okHello(id%1000+1, 0)) }
+	ok := func(id int64) hx.T { return respOp(id, -1, okHello(id%1000+1, 0)) }
 	return [][]hx.T{
 		{req, adv(timeout), tick(), adv(1), tick(), tick()},
 		{req, adv(timeout - 1), tick(), adv(1), tick(), adv(1), tick(), tick()},
@@ -424,9 +572,9 @@ func boundaryCases() [][]hx.T {
 		{hx.C("SetNext", maxReqID), req, hx.C("SetNext", 7), ok(1), hx.C("SetNext", maxReqID-1), req, req},
 		{hx.C("Do", hx.T{Name: "ANotify"}), hx.T{Name: "RespNotify"}, hx.C("RespNoSender", 1), req, hx.C("RespNoSender", 1), tick()},
 		{hx.C("Do", hx.C("ANoRoute", list(hx.C("AReq", []any{}), hx.C("ANoRoute", list(hx.C("AUnser", []any{})))))),
-			ok(1), hx.C("Resp", 2, unknownType), adv(timeout + 1), tick(), tick()},
-		{req, req, req, hx.C("Resp", 2, unknownType), hx.C("Resp", 1, corruptBody), hx.C("Resp", 3, remoteErr(4)),
-			hx.C("Resp", 3, ans(0, 0, "MNil")), tick()},
+			ok(1), respOp(2, -1, unknownType), adv(timeout + 1), tick(), tick()},
+		{req, req, req, respOp(2, -1, unknownType), respOp(1, -1, corruptBody), respOp(3, -1, remoteErr(4)),
+			respOp(3, -1, ans(0, 0, "MNil")), tick()},
 	}
 }
 
@@ -467,9 +615,9 @@ func valueCases() [][]hx.T {
 				ops = append(ops, req)
 			}
 			for j, k := range chunk {
-				ops = append(ops, hx.C("Resp", int64(j+1), k))
+				ops = append(ops, respOp(int64(j+1), -1, k))
 			}
-			ops = append(ops, hx.C("Resp", 1, other), hx.C("Advance", timeout+1), tick(), tick())
+			ops = append(ops, respOp(1, -1, other), hx.C("Advance", timeout+1), tick(), tick())
 			out = append(out, ops)
 		}
 	}
@@ -477,6 +625,42 @@ func valueCases() [][]hx.T {
 		pack(via, answers, raws[len(out)%len(raws)])
 	}
 	pack(0, raws, okHello(9, 0))
+	return out
+}
+
+// restarts of the requesting actor (a handler panics, the supervisor restarts it, the producer
+// builds a fresh Service): requests outstanding at the restart, replies that arrive after it
+// (for the live incarnation: unknown, or - ids start again at 1 - a request of its own),
+// retries issued from the timeout callbacks of a replaced incarnation, restarts in a row, at
+// the deadline boundary, at the allocator's wrap, through every way of reaching the peer.
+func restartCases() [][]hx.T {
+	req := hx.C("Do", hx.C("AReq", []any{}))
+	reqRe := hx.C("Do", hx.C("AReq", list(hx.C("AReq", []any{}), hx.T{Name: "ANotify"})))
+	reqNR := hx.C("Do", hx.C("AReq", list(hx.C("ANoRoute", list(hx.C("AReq", []any{}))))))
+	unser := hx.C("Do", hx.C("AUnser", []any{}))
+	note := hx.C("Do", hx.T{Name: "ANotify"})
+	adv := func(d int64) hx.T { return hx.C("Advance", d) }
+	resp := func(id int64, k any) hx.T { return respOp(id, -1, k) }
+	out := [][]hx.T{
+		{req, req, crash(), adv(timeout + 1), tick(), tick()},
+		{req, crash(), tick(), adv(timeout), tick(), adv(1), tick(), tick()},
+		{reqRe, crash(), adv(timeout + 1), tick(), resp(2, okHello(7, 0)), adv(timeout + 1), tick(), tick()},
+		{req, req, crash(), req, resp(1, okHello(5, 1)), resp(1, okHello(5, 1)), resp(2, okHello(6, 0)), adv(timeout + 1), tick(), tick()},
+		{req, crash(), req, crash(), req, resp(1, remoteErr(4)), adv(timeout + 1), tick(), tick()},
+		{crash(), req, resp(1, okHello(0, 0)), tick(), tick()},
+		{crash(), crash(), crash(), tick()},
+		{unser, crash(), unser, adv(timeout + 1), tick(), tick()},
+		{reqNR, crash(), adv(timeout + 1), tick(), adv(timeout + 1), tick(), tick()},
+		{hx.C("SetNext", maxReqID-1), req, req, crash(), req, resp(maxReqID, okHello(1, 0)), resp(1, okHello(2, 0)),
+			resp(1, okHello(3, 0)), adv(timeout + 1), tick(), tick()},
+		{req, adv(5), crash(), req, adv(timeout - 5), tick(), adv(1), tick(), adv(5), tick(), tick()},
+		{req, crash(), hx.C("SetNext", 7), req, adv(timeout + 1), tick(), hx.C("SetNext", 7), req, tick()},
+		{req, note, crash(), hx.T{Name: "RespNotify"}, hx.C("RespNoSender", 1), resp(1, corruptBody), adv(timeout + 1), tick(), tick()},
+	}
+	for v := int64(0); v <= 5; v++ {
+		out = append(out, []hx.T{hx.C("Via", v), req, note, crash(), req, note, resp(1, okHello(11, 0)), resp(1, noMethod),
+			hx.C("Via", (v+2)%6), req, crash(), resp(2, okHello(12, 2)), adv(timeout + 1), tick(), tick()})
+	}
 	return out
 }
 
@@ -488,7 +672,7 @@ func routedCases() [][]hx.T {
 	noteNR := hx.C("Do", hx.T{Name: "ANotifyNR"})
 	nr := hx.C("Do", hx.C("ANoRoute", list(hx.C("AReq", []any{}))))
 	unser := hx.C("Do", hx.C("AUnser", []any{}))
-	resp := func(id int64, k any) hx.T { return hx.C("Resp", id, k) }
+	resp := func(id int64, k any) hx.T { return respOp(id, -1, k) }
 	var out [][]hx.T
 	for v := int64(0); v <= 5; v++ {
 		out = append(out,
@@ -509,12 +693,17 @@ func realTimerCases(tier string) [][]hx.T {
 	reqRe := hx.C("Do", hx.C("AReq", list(hx.C("AReq", []any{}))))
 	real := hx.C("TickReal", []any{})
 	reqNote := hx.C("Do", hx.C("AReq", list(hx.T{Name: "ANotify"}, hx.C("ANoRoute", []any{}))))
-	cs := [][]hx.T{{req, reqNote, hx.C("Advance", timeout+1), real, tick()}}
+	cs := [][]hx.T{
+		{req, reqNote, hx.C("Advance", timeout+1), real, tick()},
+		// the REAL timer of a replaced incarnation is what completes the requests it left behind
+		{req, reqNote, crash(), crash(), req, hx.C("Advance", timeout+1), real, tick()},
+	}
 	if tier == "thorough" {
 		cs = append(cs,
+			[]hx.T{reqRe, crash(), hx.C("Advance", timeout+1), real, hx.C("Advance", timeout+1), real, tick()},
 			[]hx.T{req, reqRe, hx.C("Advance", timeout+1), real, tick()},
 			[]hx.T{hx.C("Do", hx.C("AUnser", []any{})), hx.C("Advance", timeout+1), real},
-			[]hx.T{real, req, hx.C("Resp", 1, ans(0, 0, "MNil")), real, real},
+			[]hx.T{real, req, respOp(1, -1, ans(0, 0, "MNil")), real, real},
 		)
 	}
 	return cs
@@ -527,11 +716,12 @@ func enumerate(L int, emit func([]hx.T)) {
 		hx.C("Do", hx.C("AReq", []any{})),
 		hx.C("Do", hx.C("AReq", list(hx.C("AReq", []any{})))),
 		hx.C("Do", hx.T{Name: "ANotify"}),
-		hx.C("Resp", 1, okHello(0, 0)), // the all-default reply: zero bytes on the wire
-		hx.C("Resp", 2, remoteErr(3)),
+		respOp(1, -1, okHello(0, 0)), // the all-default reply: zero bytes on the wire
+		respOp(2, -1, remoteErr(3)),
 		hx.C("Advance", timeout),
 		hx.C("Advance", 1),
 		tick(),
+		crash(),
 	}
 	suffix := []hx.T{hx.C("Advance", timeout+1), tick(), tick()}
 	cur := make([]hx.T, L)
